@@ -217,6 +217,15 @@ def main():
         print("FAIL: fewer than 1000 files compared")
         ok = False
 
+    allw = [w for _n, wss in fam for w in wss]
+    rc = bl.check_complete(None, allw, built=built)
+    print("check_complete: %(files)d files, %(complete)d locally complete, %(error_free)d parsed without error" % rc,
+          "-> %d violations" % len(rc["violations"]))
+    for v in rc["violations"][:3]:
+        print("   VIOLATION:", v["what"], repr(v["text"][:200]))
+    if rc["violations"]:
+        ok = False
+
     if "--no-pipeline" not in sys.argv:
         ptotal = {"workspaces": 0, "compared": 0, "queries": 0, "identifier_queries": 0, "disagreements": 0, "noncore": 0}
         for name, wss in [("generator lib/tdgen.py", gen), ("hand-written", hand), ("corpus windows", wins[:len(wins) // 2]),
